@@ -153,6 +153,12 @@ func Bytes(data any, args ...any) []byte {
 	if wr == nil {
 		wr, _ = writerPool.Get().(*Writer)
 		defer writerPool.Put(wr)
+		// The pooled writer goes back to the pool and may be picked up by
+		// another goroutine at once, so its buffer can not be handed out.
+		b := wr.MustSEN(data)
+		out := make([]byte, len(b))
+		copy(out, b)
+		return out
 	}
 	return wr.MustSEN(data)
 }
